@@ -39,7 +39,7 @@ def filtered(keep, val, outn='*on', out='o'):
 def make(tier):
     P = Plan('C16', level='proof', design_ref='DESIGN.md section 5 C16')
     P.meta += ['the algorithms are templates over the range type; they are instantiated on a fixed-capacity container with symbolic size 0..3 and symbolic elements, with uninterpreted functions/predicates: every loop is bounded by the capacity, the contracts are the obvious loop written out per size']
-    P.not_decided += ['std::vector / std::list / std::deque / std::set / std::map instantiations (heap and red-black-tree code)', 'split_string / join_strings (std::string heap)', 'map_concat, map_iteration, sequence_iteration, generate_n, equal_range, find_by_opt, container::join / get_or_insert / key_set / map_values / set_*, array / tuple helpers (not built)']
+    P.not_decided += ['std::vector / std::list / std::deque / std::set / std::map instantiations (heap and red-black-tree code)', 'split_string / join_strings (std::string heap)', 'map_concat, map_iteration, sequence_iteration, generate_n, equal_range, find_by_opt, container::join / get_or_insert / key_set / map_values / set_* (not built)']
     C = {}
     st = lambda k: 'init' if k == 0 else F2(A[k - 1], st(k - 1))
     C['vf_fold'] = ([PRE], G, ['__CPROVER_return_value == %s' % by_n(st), 'c_f2 == n', ' && '.join('VF_IMP(%d < n, l_f2e[%d] == a%d)' % (k, k, k) for k in range(3))], 'fold: left fold over all elements in order')
@@ -76,4 +76,25 @@ def make(tier):
     u = P.unit('alg', 'shim.cpp', specs=['c16.spec'], harness=['harness.c'], pre=['ghost.h'], inline=True)
     for f, (req, asg, ens, what) in C.items():
         u.contract(f, cls='W', unwind=8, bound='container capacity 4, symbolic size 0..3 (repeat: count <= 5); loops bounded by the capacity, unwinding assertions on', backends=['sat', 'cvc5'], what=what, native=False, timeout=900)
+    # fixed-arity array / tuple helpers (loop-free: P)
+    M2 = lambda x: '__CPROVER_uninterpreted_amap(%s)' % x
+    D = {}
+    fo = lambda n: '__CPROVER_is_fresh(o, %d)' % (4 * n)
+    D['vf_array_map'] = (fo(3), 'o[0] == %s && o[1] == %s && o[2] == %s && c_map == 3 && l_map[0] == x0 && l_map[1] == x1 && l_map[2] == x2' % (M2('x0'), M2('x1'), M2('x2')), 'array::map: f on every element, in index order')
+    D['vf_array_join'] = (fo(5), 'o[0] == x0 && o[1] == x1 && o[2] == y0 && o[3] == y1 && o[4] == y2', 'array::join concatenates')
+    D['vf_array_append'] = (fo(5), 'o[0] == x0 && o[1] == x1 && o[2] == y0 && o[3] == y1 && o[4] == y2', 'array::append concatenates')
+    D['vf_array_push_back'] = (fo(3), 'o[0] == x0 && o[1] == x1 && o[2] == y', 'array::push_back appends')
+    D['vf_array_init'] = (fo(3), 'o[0] == __CPROVER_uninterpreted_ainit(0) && o[1] == __CPROVER_uninterpreted_ainit(1) && o[2] == __CPROVER_uninterpreted_ainit(2) && c_init == 3', 'array::init: element i is f(i), f invoked once per index')
+    D['vf_tuple_map'] = (fo(2), 'o[0] == %s && o[1] == %s && c_map == 2' % (M2('x0'), M2('x1')), 'tuple::map')
+    D['vf_tuple_concat'] = (fo(3), 'o[0] == x0 && o[1] == x1 && o[2] == y0', 'tuple::concat')
+    D['vf_tuple_push_back'] = (fo(3), 'o[0] == x0 && o[1] == x1 && o[2] == y', 'tuple::push_back')
+    spec2 = ''
+    for f, (req, ens, what) in D.items():
+        spec2 += 'function %s\n  __CPROVER_requires(%s && c_map == 0 && c_init == 0)\n  __CPROVER_assigns(__CPROVER_object_whole(o), c_map, c_init, __CPROVER_object_whole(l_map))\n  __CPROVER_ensures(%s)\n' % (f, req, ens)
+    P.generated['arr.spec'] = spec2
+    P.generated['arr_ghost.h'] = 'u32 __CPROVER_uninterpreted_amap(u32);\nu32 __CPROVER_uninterpreted_ainit(u32);\nstatic unsigned c_map, c_init; static u32 l_map[8];\n'
+    P.generated['arr_h.c'] = 'u32 vf_map(u32 e){ if (c_map < 8) l_map[c_map] = e; ++c_map; return __CPROVER_uninterpreted_amap(e); }\nu32 vf_init(u32 i){ ++c_init; return __CPROVER_uninterpreted_ainit(i); }\n'
+    u2 = P.unit('arr', 'arr.cpp', specs=['arr.spec'], harness=['arr_h.c'], pre=['arr_ghost.h'], inline=True)
+    for f, (req, ens, what) in D.items():
+        u2.contract(f, cls='P', backends=['sat', 'cvc5'], what=what, native=False, timeout=600)
     return P
